@@ -617,10 +617,10 @@ def run_batch(progs, workdir, tag="b", want_run=True):
 
         def one(i):
             try:
-                q = sh([tools["wire"], "gen", "./c%d/app" % i], cwd=root, env=env, timeout=60)
+                q = sh([tools["wire"], "gen", "./c%d/app" % i], cwd=root, env=env, timeout=20)
                 return i, q.returncode, q.stderr
             except subprocess.TimeoutExpired:
-                return i, 124, "timeout: wire gen did not finish within 60s"
+                return i, 124, "timeout: wire gen did not finish within 20s"
         per = {}
         with ThreadPoolExecutor(max_workers=16) as ex:
             for i, rc, err in ex.map(one, [i for i in range(len(renders)) if i not in dropped]):
